@@ -37,7 +37,7 @@ def gen_case(rng):
     for k in range(ncomp):
         comp, tm, params, kind = sparqlgen.gen_component(rng, gen.g, k)
         templates.update(tm)
-        want_prop = True if kind == "prop_select" else False if kind == "node_select" else None
+        want_prop = True if kind == "prop_select" else False if kind in ("node_select", "node_select_union", "node_select_rebind") else None
         users = [sh_ for sh_, is_p in gen.shapes if rng.random() < 0.6 and (want_prop is None or is_p == want_prop)]
         if rng.random() < 0.6 or not users:
             users.append(gen.shape(is_prop=want_prop, n_constraints=0, complex_path=0.1))
